@@ -200,6 +200,10 @@ def run_deflate(c, P):
                 c.assume(z3.ULT(b.e, 0x80))
         if kind == 'c-text' and c.concrete is not None:
             pay = [b & 0x7F for b in pay]
+            if nfrag > 1 and negotiate and valid:
+                # (content of a compressed message does not influence pristine lomond's control flow; in the replay it is chosen
+                #  so that the real DEFLATE output is not itself well-formed UTF-8 - aa af 07 00 - as deflate output rarely is)
+                pay = [0x7F, 0x7F]
         op = 1 if kind == 'c-text' else 2
         if kind.startswith('c-') and negotiate and valid:
             body = deflater.compress(pay)
@@ -370,3 +374,13 @@ def run_deflate(c, P):
     return {'cls': sorted(cls), 'sample': {'ext': bytes(x if isinstance(x, int) else 63 for x in ext).decode('latin1'),
                                            'incoming': plan, 'sent': [(a, cf) for a, _, cf in sent], 'events': names},
             'observe': {'events': names, 'nwrites': len(writes)}}
+
+
+def run_deflate_as(c, P):
+    """the same harness serving another property (P['as']): violations are reported under that property's id"""
+    from symlomond.engine import Violation
+    try:
+        return run_deflate(c, P)
+    except Violation as v:
+        tag = P['as']
+        raise Violation(v.what.replace('C06:', tag + ':'), v.model, v.sig.replace('C06:', tag + ':') if v.sig else v.sig)
